@@ -12,6 +12,7 @@ package nutsdb
 //@   ensures[C01,C19] result == expiredAt(ttl, timestamp, clock)
 //@   modifies nothing
 //@   safety[C01,C20] panics overflow
+//@   pure
 
 // ---------------------------------------------------------------------------
 // Record codecs (C21). The on-disk format of a data entry, stated once and used by
@@ -857,3 +858,92 @@ package nutsdb
 //@   ensures pendingOK(tx)
 //@   modifies[C05,C08,C12] tx.pendingWrites, elems(tx.pendingWrites)
 //@   safety[C05,C20] panics overflow
+
+// ---------------------------------------------------------------------------
+// Key/value reads in the RAM index modes (C01, C03, C12, C19)
+//@ spec func liveRec(r *Record) bool = r != nil && r.H != nil && r.H.meta != nil && r.H.meta.Flag != DataDeleteFlag && !expiredAt(r.H.meta.TTL, r.H.meta.timestamp, clock)
+//@ spec func recsOK(rs Records) bool = forall k int :: 0 <= k && k < len(rs) ==> rs[k] != nil && rs[k].H != nil && rs[k].H.meta != nil && rs[k].H.dataPos < 9223372036854775808
+//@ spec func treesOK(db *DB) bool = forall b string :: has(db.BPTreeIdx, b) ==> db.BPTreeIdx[b] != nil
+
+//@ func Record.IsExpired
+//@   requires r != nil && r.H != nil && r.H.meta != nil
+//@   ensures[C01] result == expiredAt(r.H.meta.TTL, r.H.meta.timestamp, clock)
+//@   modifies nothing
+//@   safety[C20] panics
+//@   pure
+
+//@ func BPTree.Find
+//@   assumed B+ tree lookup (ordered-map behaviour of the tree is covered by the bounded stand-in BS1)
+//@   requires t != nil
+//@   ensures result1 == nil ==> result0 != nil && result0.H != nil && result0.H.meta != nil && result0.H.dataPos < 9223372036854775808
+//@   ensures result1 != nil ==> result0 == nil
+//@   modifies nothing
+//@   pure
+//@ func BPTree.All
+//@   assumed B+ tree scan (bounded stand-in BS1)
+//@   requires t != nil
+//@   ensures err == nil ==> recsOK(records)
+//@   modifies nothing
+//@ func BPTree.Range
+//@   assumed B+ tree scan (bounded stand-in BS1)
+//@   requires t != nil
+//@   ensures err == nil ==> recsOK(records)
+//@   modifies nothing
+
+//@ func Tx.getHintIdxDataItemsWrapper
+//@   requires tx != nil && tx.db != nil && recsOK(records)
+//@   ensures result1 == nil ==> len(result0) >= len(es)
+//@   ensures[C03] result1 == nil && limitNum > 0 && len(es) <= limitNum ==> len(result0) <= limitNum
+//@   modifies lastReadOff, elems(es)
+//@   safety[C20] panics
+//@   loops 1
+//@   loop 1: modifies elems(es), lastReadOff
+//@   loop 1: invariant -1 <= rangeindex && rangeindex < len(records) && tx == old(tx) && tx.db == old(tx.db) && records == old(records) && limitNum == old(limitNum) &&
+//@        len(es) >= old(len(es)) && (limitNum > 0 && old(len(es)) <= limitNum ==> len(es) <= limitNum) && (arr(es) == arr(pre(es)) || sinceLoop(es))
+//@   branch 2: iff[C01,C03] r.H.meta.Flag == DataDeleteFlag
+//@   branch 3: iff[C01,C03] expiredAt(r.H.meta.TTL, r.H.meta.timestamp, clock)
+//@   at stored es: assert[C01,C03,C19] len(es) > 0 && liveRec(r) && (tx.db.opt.EntryIdxMode == HintKeyValAndRAMIdxMode ==> es[len(es) - 1] == r.E) &&
+//@        (tx.db.opt.EntryIdxMode == HintKeyAndRAMIdxMode ==> lastReadOff == r.H.dataPos)
+//@   at stored es: assert[C12] has(tx.db.committedTxIds, r.H.meta.txID)
+
+//@ func Tx.Get
+//@   requires txOK(tx) && (tx.db != nil ==> treesOK(tx.db))
+//@   ensures[C12,C20] tx.db == nil ==> err == ErrTxClosed
+//@   ensures[C01] err != nil ==> e == nil
+//@   at return: assert[C01,C12,C19] err == nil && tx.db.opt.EntryIdxMode != HintBPTSparseIdxMode ==> has(tx.db.BPTreeIdx, bucket) && liveRec(r) &&
+//@        has(tx.db.committedTxIds, r.H.meta.txID) && (tx.db.opt.EntryIdxMode == HintKeyValAndRAMIdxMode ==> e == r.E) &&
+//@        (tx.db.opt.EntryIdxMode == HintKeyAndRAMIdxMode ==> lastReadOff == r.H.dataPos)
+//@   modifies lastReadOff
+//@   safety[C20] panics
+
+//@ func Tx.getByHintBPTSparseIdx
+//@   assumed sparse-mode lookup (active tree, then sealed segments through the on-disk index); C02, not yet under contract
+//@   ensures err != nil ==> e == nil
+//@   modifies lastReadOff
+
+//@ func Tx.Delete
+//@   requires txOK(tx)
+//@   ensures[C12,C20] old(tx.db) == nil ==> result == ErrTxClosed
+//@   ensures[C12] result != nil ==> samePending(tx)
+//@   ensures[C01] result == nil ==> appended(tx, 1) && entryIs(tx.pendingWrites[old(len(tx.pendingWrites))], tx, bucket, key, tx.pendingWrites[old(len(tx.pendingWrites))].Value, DataDeleteFlag, DataStructureBPTree)
+//@   ensures pendingOK(tx)
+//@   modifies[C01,C08,C12] tx.pendingWrites, elems(tx.pendingWrites)
+//@   safety[C20] panics
+//@ func Tx.Put
+//@   requires txOK(tx)
+//@   ensures[C12,C20] old(tx.db) == nil ==> result == ErrTxClosed
+//@   ensures[C12] result != nil ==> samePending(tx)
+//@   ensures[C01] result == nil ==> appended(tx, 1) && entryIs(tx.pendingWrites[old(len(tx.pendingWrites))], tx, bucket, key, value, DataSetFlag, DataStructureBPTree) == (ttl == Persistent) &&
+//@        tx.pendingWrites[old(len(tx.pendingWrites))].Meta.TTL == ttl && tx.pendingWrites[old(len(tx.pendingWrites))].Key == key && tx.pendingWrites[old(len(tx.pendingWrites))].Value == value
+//@   ensures pendingOK(tx)
+//@   modifies[C01,C08,C12] tx.pendingWrites, elems(tx.pendingWrites)
+//@   safety[C20] panics
+//@ func Tx.PutWithTimestamp
+//@   requires txOK(tx)
+//@   ensures[C12,C20] old(tx.db) == nil ==> result == ErrTxClosed
+//@   ensures[C12] result != nil ==> samePending(tx)
+//@   ensures[C01] result == nil ==> appended(tx, 1) && tx.pendingWrites[old(len(tx.pendingWrites))].Meta.TTL == ttl && tx.pendingWrites[old(len(tx.pendingWrites))].Meta.timestamp == timestamp &&
+//@        tx.pendingWrites[old(len(tx.pendingWrites))].Key == key && tx.pendingWrites[old(len(tx.pendingWrites))].Value == value && tx.pendingWrites[old(len(tx.pendingWrites))].Meta.Flag == DataSetFlag
+//@   ensures pendingOK(tx)
+//@   modifies[C01,C08,C12] tx.pendingWrites, elems(tx.pendingWrites)
+//@   safety[C20] panics
